@@ -29,6 +29,50 @@ inductive Val where
   | list (xs : List Val)
   deriving Repr, Inhabited
 
+
+/-! ### decidable equality of `Val` (nested inductive: written by hand) -/
+
+mutual
+  def Val.beq : Val → Val → Bool
+    | .leaf x, .leaf y => decide (x = y)
+    | .dict es, .dict fs => beqEs es fs
+    | .list xs, .list ys => beqXs xs ys
+    | _, _ => false
+  def beqEs : List (Key × Val) → List (Key × Val) → Bool
+    | [], [] => true
+    | (k, v) :: es, (k', v') :: fs => decide (k = k') && Val.beq v v' && beqEs es fs
+    | _, _ => false
+  def beqXs : List Val → List Val → Bool
+    | [], [] => true
+    | v :: xs, v' :: ys => Val.beq v v' && beqXs xs ys
+    | _, _ => false
+end
+
+mutual
+  theorem Val.beq_iff : ∀ a b : Val, Val.beq a b = true ↔ a = b
+    | .leaf x, .leaf y => by simp [Val.beq]
+    | .dict es, .dict fs => by simp [Val.beq, beqEs_iff es fs]
+    | .list xs, .list ys => by simp [Val.beq, beqXs_iff xs ys]
+    | .leaf _, .dict _ => by simp [Val.beq]
+    | .leaf _, .list _ => by simp [Val.beq]
+    | .dict _, .leaf _ => by simp [Val.beq]
+    | .dict _, .list _ => by simp [Val.beq]
+    | .list _, .leaf _ => by simp [Val.beq]
+    | .list _, .dict _ => by simp [Val.beq]
+  theorem beqEs_iff : ∀ a b : List (Key × Val), beqEs a b = true ↔ a = b
+    | [], [] => by simp [beqEs]
+    | [], _ :: _ => by simp [beqEs]
+    | _ :: _, [] => by simp [beqEs]
+    | (k, v) :: es, (k', v') :: fs => by simp [beqEs, Val.beq_iff v v', beqEs_iff es fs, and_assoc]
+  theorem beqXs_iff : ∀ a b : List Val, beqXs a b = true ↔ a = b
+    | [], [] => by simp [beqXs]
+    | [], _ :: _ => by simp [beqXs]
+    | _ :: _, [] => by simp [beqXs]
+    | v :: xs, v' :: ys => by simp [beqXs, Val.beq_iff v v', beqXs_iff xs ys]
+end
+
+instance : DecidableEq Val := fun a b => decidable_of_iff _ (Val.beq_iff a b)
+
 abbrev Entries := List (Key × Val)
 
 namespace Val
@@ -57,6 +101,6 @@ def delKey (k : Key) : Entries → Entries
   | [] => []
   | (k', v') :: es => if k' = k then es else (k', v') :: delKey k es
 
-def keys (es : Entries) : List Key := es.map (·.1)
+abbrev keys (es : Entries) : List Key := es.map (·.1)
 
 end DictIO
